@@ -206,6 +206,18 @@ class Lockstep:
         obj = cls(name=name) if name is not None else cls()
         id_taken = aid is not None and aid in sh.live_ids()
         name_taken = name is not None and name in sh.live_names()
+        if name is None and not allow_dup and not id_taken:
+            # an unnamed asset is called '<type>:<id>'; if a live asset already has
+            # that name the add is a duplicate-name case as well.  With an automatic
+            # id the implementation chooses the id, so any '<type>:<k>' with k not a
+            # live id may be the colliding default name.
+            if aid is not None:
+                name_taken = ('%s:%d' % (typ, aid)) in sh.live_names()
+            else:
+                for nm in sh.live_names():
+                    head, _, tail = nm.rpartition(':')
+                    if head == typ and tail.lstrip('-').isdigit() and int(tail) not in sh.live_ids():
+                        name_taken = 'maybe'
         kwargs = {}
         if aid is not None:
             kwargs['asset_id'] = aid
